@@ -59,3 +59,17 @@ package server
 //@ modifies nothing
 //@ func filterColumns
 //@ modifies nothing
+
+// Monitor / MonitorCond / MonitorCondSince (C17/C01, F11): the initial contents
+// are read, and the monitor is registered, while the transaction mutex is held -
+// so a transaction is either entirely in the initial contents or notified.
+//@ func (*OvsdbServer).Monitor
+//@ at call database.Transaction.Transact requires wheld(o.txnMutex) >= 1
+//@ at update o.monitors[client].monitors requires wheld(o.txnMutex) >= 1
+//@ func (*OvsdbServer).MonitorCond
+//@ at call database.Transaction.Transact requires wheld(o.txnMutex) >= 1
+//@ at update o.monitors[client].monitors requires wheld(o.txnMutex) >= 1
+//@ func (*OvsdbServer).MonitorCondSince
+//@ at call database.Transaction.Transact requires wheld(o.txnMutex) >= 1
+//@ at update o.monitors[client].monitors requires wheld(o.txnMutex) >= 1
+
